@@ -60,6 +60,9 @@ def gen_check(spec, mod, seed, tier="quick"):
     sv = spec.sorted_variants()
     n = len(sv)
     consts = {c["name"]: c for c in mod["consts"]}
+    if getattr(spec, "no_private", False):
+        consts = {}     # the enum sits in an inner module: its private tables are not reachable from the driver
+    structs = {st["canon"]: st["name"] for st in mod["structs"]}
     cfg = spec.cfg
     rng = random.Random(seed * 7919 + __import__('zlib').crc32(spec.mod.encode()) % 1000)
     L = []
@@ -84,7 +87,7 @@ def gen_check(spec, mod, seed, tier="quick"):
     # ---- emission (the seam) ------------------------------------------------------------
     runs = spec.runs()
     if "__RANGES" in consts:
-        with_off = not consts["__RANGES"]["ty"].rstrip(" ]").endswith("( )") and ", ( )" not in consts["__RANGES"]["ty"]
+        with_off = re.search(r",\s*\(\s*\)\s*\)", consts["__RANGES"]["ty"]) is None
         w("        out.guard(\"EMIT:__RANGES\", \"table\", |out| {")
         w("            static RUNS: &[(i128, i128, i128)] = &[")
         before = 0
@@ -112,6 +115,29 @@ def gen_check(spec, mod, seed, tier="quick"):
     if max_name and max_name in consts:
         w("        out.eq(\"EMIT:MAX\", \"const\", &0, disc(%s::%s), all[all.len() - 1]);" % (En, max_name))
 
+    # ---- C19: every item used at its documented type (decided by rustc when this compiles) ------
+    w("        fn __req<I: ::core::iter::Iterator<Item = T> + ::core::iter::DoubleEndedIterator + ::core::iter::ExactSizeIterator + ::core::iter::FusedIterator, T>() {}")
+    if spec.item_name("as_str"):
+        w("        { let _p: fn(%s) -> &'static str = %s::%s; }" % (En, En, spec.item_name("as_str")))
+    if spec.item_name("from_str"):
+        w("        { let _p: fn(&str) -> Option<%s> = %s::%s; }" % (En, En, spec.item_name("from_str")))
+    if spec.item_name("into"):
+        w("        { let _p: fn(%s) -> %s = %s::%s; }" % (En, r, En, spec.item_name("into")))
+    for ft in ("next", "next_back"):
+        if spec.item_name(ft):
+            w("        { let _p: fn(%s) -> Option<%s> = %s::%s; }" % (En, En, En, spec.item_name(ft)))
+    if spec.item_name("try_from"):
+        w("        { let _p: fn(%s) -> Option<%s> = %s::%s; }" % (r, En, En, spec.item_name("try_from")))
+    if spec.item_name("iter") and "EIter" in structs:
+        w("        { let _p: fn() -> %s = %s::%s; __req::<%s, %s>(); }" % (structs["EIter"], En, spec.item_name("iter"), structs["EIter"], En))
+    if spec.item_name("range") and "EIter" in structs:
+        w("        { let _p: fn(%s, %s) -> %s = %s::%s; }" % (En, En, structs["EIter"], En, spec.item_name("range")))
+    if spec.item_name("names") and "ENames" in structs:
+        w("        { let _p: fn() -> %s = %s::%s; __req::<%s, &'static str>(); }" % (structs["ENames"], En, spec.item_name("names"), structs["ENames"]))
+    if "TryFrom" in cfg:
+        w("        { let _e: <%s as TryFrom<%s>>::Error = (); }" % (En, r))
+    if "FromStr" in cfg:
+        w("        { let _e: <%s as FromStr>::Err = (); }" % En)
     # ---- C01 ------------------------------------------------------------------------------
     f_into = spec.item_name("into")
     if f_into:
@@ -278,8 +304,10 @@ def run_instances(scratch, specs, seed=1, tier="quick", target=None, name="inst"
     """returns {"modules": {mod: {"fails": [...], "evals": n}}, "build_error": str|None, ...}"""
     target = target or os.path.join(scratch, "target")
     res = {"modules": {}, "build_error": None, "rejected": {}}
+    all_specs = list(specs)
     try:
-        exp_path, dt = expand.expand(scratch, specs, name=name + "_x", target=target)
+        exp_path, specs, rej0 = expand.expand_isolating(scratch, specs, name=name + "_x", target=target)
+        res["rejected"].update(rej0)
     except expand.ExpandError as e:
         res["build_error"] = "expansion failed:\n" + str(e)
         return res
@@ -300,6 +328,10 @@ def run_instances(scratch, specs, seed=1, tier="quick", target=None, name="inst"
     live = list(specs)
     for attempt in range(4):
         ranges = render_instance_crate(d, live, mods, seed, tier, name=name)
+        check_start = {}
+        for (a, b, modname) in ranges:
+            sp_ = next(x for x in live if x.mod == modname)
+            check_start[modname] = a + sp_.render().rstrip()[:-1].count("\n")
         rc, out, err, dt = run(["cargo", "build", "--offline", "--quiet"], cwd=d, env={"CARGO_TARGET_DIR": target}, timeout=3600)
         res["build_s"] = res.get("build_s", 0) + dt
         if rc == 0:
@@ -315,6 +347,12 @@ def run_instances(scratch, specs, seed=1, tier="quick", target=None, name="inst"
             ln = int(m.group(1))
             for (a, b, modname) in ranges:
                 if a <= ln <= b:
+                    # an error inside the generated oracle driver that is not one of the typed
+                    # signature probes (C19) is a defect of the harness, not of the macro
+                    in_check = ln >= check_start.get(modname, 10 ** 9)
+                    if in_check and not re.search(r"let _p:|__req::|let _e:|const _C:", blk):
+                        res["build_error"] = "error inside the generated oracle driver of %s (harness defect):\n%s" % (modname, blk[:2000])
+                        return res
                     bad.setdefault(modname, blk.strip()[:1500])
         if not bad:
             res["build_error"] = err[-8000:]
@@ -330,7 +368,7 @@ def run_instances(scratch, specs, seed=1, tier="quick", target=None, name="inst"
     rc, out, err, dt = run([exe], env={"VERIF_SEED": str(seed)}, timeout=3600)
     res["run_s"] = dt
     res["mods_info"] = mods
-    for s in specs:
+    for s in all_specs:
         res["modules"][s.mod] = {"fails": [], "evals": 0, "done": False}
     for line in out.split("\n"):
         p = line.split("\t")
